@@ -192,7 +192,7 @@ def Sim.op (m : Sim) (fs : List String) : Sim × String :=
       -- rejected (ErrFrameTooLarge) before the peer goes away
       (match unhex hex with
        | some p =>
-         let tooLarge := p.length ≥ 9 && (match p with | a :: b' :: c :: _ => a.toNat * 65536 + b'.toNat * 256 + c.toNat > Generated.http2MaxFrameLen | _ => false)
+         let tooLarge := p.length ≥ 9 && (match p with | a :: b' :: c :: _ => a.toNat * 65536 + b'.toNat * 256 + c.toNat > Generated.ccHttp2MaxFrameLen | _ => false)
          if tooLarge && !(s.readerDone || s.peerGone) then
            let (s, w) := settle FUEL (s.onFrame .connErr) []
            fin m "ok" { s with peerGone := true } w
